@@ -64,7 +64,31 @@ type World struct {
 	once    sync.Once
 	// Busy counts harness-level operations in flight (Update, Settle, ...): the ledger clock
 	// only moves when none is running or all of them wait for the clock.
-	Busy int64
+	Busy     int64
+	lastMove int64 // unix nanoseconds of the last observed movement (see QuietFor)
+}
+
+// QuietFor tells for how long nothing has moved in the world: no envelope delivered, no persister
+// event, no ledger call, no publication to a watcher (sampled every 50 ms). It separates a
+// protocol that is stuck from one that is slow; wall-clock, so only used with large margins.
+func (w *World) QuietFor() time.Duration {
+	return time.Duration(time.Now().UnixNano() - atomic.LoadInt64(&w.lastMove))
+}
+
+func (w *World) watchMovement() {
+	last := int64(-1)
+	for {
+		cur := atomic.LoadInt64(&w.Seq)*1000003 + w.Bus.Delivered()
+		if cur != last || !w.Bus.Drained() {
+			last = cur
+			atomic.StoreInt64(&w.lastMove, time.Now().UnixNano())
+		}
+		select {
+		case <-w.stop:
+			return
+		case <-time.After(50 * time.Millisecond):
+		}
+	}
 }
 
 // NewWorld creates a world with nAssets assets.
@@ -75,6 +99,8 @@ func NewWorld(rng *rand.Rand, nAssets, noise int) *World {
 	}
 	w.Ledger.Stamp = func() int64 { return atomic.AddInt64(&w.Seq, 1) }
 	go w.Ledger.RunClock(w.stop, func() bool { return w.Bus.Drained() })
+	atomic.StoreInt64(&w.lastMove, time.Now().UnixNano())
+	go w.watchMovement()
 	return w
 }
 
